@@ -25,7 +25,8 @@ RULE = ("(1) stacks: every stack of 0..3 entries (quick; 0..4 thorough sample + 
         "entries or a raising/suppressing entry, history with >= 2 unwinds; distinct = stack or history")
 ASSUMPTIONS = ["nested async with/with statements of the running interpreter are the reference for routing",
                "__context__ chains are not compared"]
-EXHAUSTIVE = {"quick": True, "thorough": True}
+EXHAUSTIVE_SUBSPACES = 'all 16842 stacks of <= 3 entries x block outcome; all histories of length <= 4 (thorough: 5) over 8 operations'
+EXHAUSTIVE = {"quick": False, "thorough": False}  # enumerated sub-spaces are complete, the sampled part is not
 
 KINDS = ["acm", "scm", "apush", "spush", "cb"]
 BEHS = ["falsy", "truthy", "raise", "raise_if_exc"]
